@@ -193,7 +193,10 @@ fn do_eval(req: &J, shared: &Ctx) -> J {
     };
     ctx.reset(get_vars(req));
     #[cfg(feature = "hooks")]
-    ucglib::verif::take();
+    {
+        ucglib::verif::take();
+        ucglib::verif::enable(req.get("trace").and_then(|b| b.as_bool()).unwrap_or(false));
+    }
     let mut b = FileBuilder::new(cwd, &ctx.import_paths, &ctx.env);
     b.set_strict(strict);
     if req.get("validate").and_then(|b| b.as_bool()).unwrap_or(false) {
@@ -210,8 +213,11 @@ fn do_eval(req: &J, shared: &Ctx) -> J {
             "summary":e.assert_results.summary.clone()});
     }
     #[cfg(feature = "hooks")]
-    if req.get("trace").and_then(|b| b.as_bool()).unwrap_or(false) {
-        r["trace"] = J::Array(ucglib::verif::take());
+    {
+        if req.get("trace").and_then(|b| b.as_bool()).unwrap_or(false) {
+            r["trace"] = J::Array(ucglib::verif::take());
+        }
+        ucglib::verif::enable(false);
     }
     r
 }
